@@ -309,7 +309,7 @@ pub trait KemOps: Send + Sync {
     /// `threads` threads, each with its OWN recipient key pair and encapsulated key (derived from `ikm` and the
     /// thread index), decapsulate `reps` times concurrently; every result is compared with the value the same
     /// call gave sequentially beforehand. Returns (mismatches, calls).
-    fn decap_storm(&self, ikm: &[u8], threads: usize, reps: usize) -> (u64, u64);
+    fn decap_storm(&self, ikm: &[u8], threads: usize, reps: usize, auth: bool) -> (u64, u64);
     /// Display and Debug renderings of every error variant (feature sets must agree on them)
     fn error_strings(&self) -> Vec<String>;
 }
@@ -342,37 +342,40 @@ where
     M::PrivateKey: Send + Sync,
     M::EncappedKey: Send + Sync,
 {
-    fn decap_storm(&self, ikm: &[u8], threads: usize, reps: usize) -> (u64, u64) {
+    fn decap_storm(&self, ikm: &[u8], threads: usize, reps: usize, auth: bool) -> (u64, u64) {
         let mut keys = Vec::new();
         for t in 0..threads {
             let mut seed = ikm.to_vec();
             seed.push(t as u8);
             let (sk, pk) = M::derive_keypair(&seed);
             seed.push(0xE0);
+            let (sks, pks) = M::derive_keypair(&seed);
             let mut rng = ScriptRng::new(crate::lang::prand(t as u64 + 77, 200));
-            let (ss, enc) = match M::encap(&pk, None, &mut rng) {
+            let id = if auth { Some((&sks, &pks)) } else { None };
+            let (ss, enc) = match M::encap(&pk, id, &mut rng) {
                 Ok(x) => x,
                 Err(_) => continue,
             };
+            let pks_opt = if auth { Some(pks.clone()) } else { None };
             // what decap gives sequentially, before any concurrency
-            let expected = match M::decap(&sk, None, &enc) {
+            let expected = match M::decap(&sk, pks_opt.as_ref(), &enc) {
                 Ok(s) => s.0.to_vec(),
                 Err(_) => Vec::new(),
             };
             let _ = ss;
-            keys.push((sk, enc, expected));
+            keys.push((sk, enc, expected, pks_opt));
         }
         let barrier = std::sync::Barrier::new(keys.len());
         let bad: u64 = std::thread::scope(|s| {
             let hs: Vec<_> = keys
                 .iter()
-                .map(|(sk, enc, expected)| {
+                .map(|(sk, enc, expected, pks_opt)| {
                     let barrier = &barrier;
                     s.spawn(move || {
                         let mut bad = 0u64;
                         barrier.wait();
                         for _ in 0..reps {
-                            let got = match M::decap(sk, None, enc) {
+                            let got = match M::decap(sk, pks_opt.as_ref(), enc) {
                                 Ok(s) => s.0.to_vec(),
                                 Err(_) => Vec::new(),
                             };
